@@ -236,7 +236,27 @@ func (h *helperSpec) run(g *generate.Generator) error {
 func genSteps(r *rand.Rand, n int) []gstep {
 	var st []gstep
 	sel := func(op string, v int) gstep { c := mkCall(op); c.Sel = v; return gstep{kind: "call", call: c} }
-	st = append(st, gstep{kind: "call", call: resetCall([4]float32{-32, -32, 32, 32}, defaultPal())})
+	pal := defaultPal()
+	if r.Intn(3) == 0 {
+		// a suggested palette of the caller's own (round 10): colours on the quarter steps, translucent ones among them (the
+		// one-byte palette format holds opaque quarter-step colours only), and ordinary colours in some
+		qs := []uint8{0, 0x40, 0x80, 0xc0, 0xff}
+		for k := r.Intn(4) + 1; k > 0; k-- {
+			a := qs[1+r.Intn(4)]
+			ch := func() uint8 {
+				v := qs[r.Intn(5)]
+				if v > a {
+					v = a
+				}
+				return v
+			}
+			pal[[]int{0, 0, 1, 5, 63, r.Intn(64)}[r.Intn(6)]] = colorRGBA{ch(), ch(), ch(), a}
+		}
+		if r.Intn(3) == 0 {
+			pal[r.Intn(64)] = colorRGBA{0x12, 0x34, 0x56, 0x78}
+		}
+	}
+	st = append(st, gstep{kind: "call", call: resetCall([4]float32{-32, -32, 32, 32}, pal)})
 	for i := 0; i < n; i++ {
 		switch r.Intn(12) {
 		case 0:
